@@ -199,6 +199,30 @@ def journal_mode_of(path) -> str:
     return "wal" if h[18] == 2 and h[19] == 2 else "del" if h[18] == 1 and h[19] == 1 else "mixed"
 
 
+_KEPT_FDS: list = []
+
+
+def journal_mode_in_child(path) -> str:
+    """journal_mode_of() for a process that has a SQLite connection on the file: the descriptor is NOT closed
+    (it lives until the process exits).  POSIX record locks belong to the process, and closing ANY descriptor of a file
+    drops every lock the process holds on it - also the SHARED lock SQLite keeps on the database file for as long as a
+    WAL connection is attached; another context that closes then believes it is the last one, checkpoints and removes
+    <db>-wal under the connection, whose later commits go to the unlinked file (seen with a creating context that
+    closes right after a worker's start-up script: the worker's bootstrap page never reached the others)."""
+    try:
+        fd = os.open(path, os.O_RDONLY)
+    except OSError:
+        return ""
+    _KEPT_FDS.append(fd)
+    try:
+        h = os.pread(fd, 20, 0)
+    except OSError:
+        return ""
+    if len(h) < 20 or not h.startswith(b"SQLite format 3"):
+        return ""
+    return "wal" if h[18] == 2 and h[19] == 2 else "del" if h[18] == 1 and h[19] == 1 else "mixed"
+
+
 def to_rollback_journal(path: Path) -> None:
     con = sqlite3.connect(str(path))
     try:
@@ -393,7 +417,7 @@ def install_wrappers(dbdir: str, sync) -> None:
 
     def ok_jm(r):
         # result of a start-up script operation + the journal mode the file at the path now has
-        return "ok jm=" + journal_mode_of(mainpath)
+        return "ok jm=" + journal_mode_in_child(mainpath)
 
     class Conn(sqlite3.Connection):
         def execute(self, sql, params=()):
@@ -1430,11 +1454,11 @@ def run(tier: str) -> int:
             # (TLC: NoIdleTransaction fails), the third worker of the race is locked out (NoFailure fails); with two workers
             # nothing is observable; a holder without bound on its hold defeats the busy handler (LockWait)
             {"name": "Demo_Workers_idletxn", "module": "MC_Workers", "cfg": "Demo_Workers_idletxn.cfg", "workers": 4, "expect": "NoIdleTransaction"},
-            {"name": "Demo_Workers_idletxn_locked", "module": "MC_Workers", "cfg": "Demo_Workers_idletxn_locked.cfg", "workers": 4},
-            {"name": "MC_skipped_commit_2_workers_invisible", "module": "MC_Workers", "cfg": "MC_Workers_skip_two.cfg", "workers": 4},
-            {"name": "Demo_LockWait_idle", "module": "LockWait", "cfg": "Demo_LockWait_idle.cfg", "workers": 1, "expect": "NeverLocked"}]
+            {"name": "Demo_Workers_idletxn_locked", "module": "MC_Workers", "cfg": "Demo_Workers_idletxn_locked.cfg", "workers": 4}]
     if thorough:
-        side += [{"name": "Demo_Workers_rollback_rbj", "module": "MC_Workers", "cfg": "Demo_Workers_rollback_rbj.cfg", "workers": 4},
+        side += [{"name": "MC_skipped_commit_2_workers_invisible", "module": "MC_Workers", "cfg": "MC_Workers_skip_two.cfg", "workers": 4},
+                 {"name": "Demo_LockWait_idle", "module": "LockWait", "cfg": "Demo_LockWait_idle.cfg", "workers": 1, "expect": "NeverLocked"},
+                 {"name": "Demo_Workers_rollback_rbj", "module": "MC_Workers", "cfg": "Demo_Workers_rollback_rbj.cfg", "workers": 4},
                  {"name": "MC_dropsmode_alone_2", "module": "MC_Workers", "cfg": "MC_Workers_dropsmode_alone.cfg", "workers": 4},
                  {"name": "MC_creatoronly_libfiles_2", "module": "MC_Workers", "cfg": "MC_Workers_creatoronly_lib.cfg", "workers": 4},
                  {"name": "MC_ideal_3_all_provenances", "module": "MC_Workers", "cfg": "MC_Workers_ideal_T_P.cfg", "workers": 8},
@@ -1517,10 +1541,19 @@ def _run(o, thorough, rng, gens, side, provcfg, jobs):
             if ref[k]["jm"] != "wal":
                 o.note_drift({"why": "a single context that opened the scenario files left the database in another journal mode than WAL "
                               "(model: every open (re-)establishes WAL)", "scenario": list(k), "journal_mode": ref[k]["jm"]})
+        # the boot3 family is spread evenly over the list (pmap cuts it into contiguous chunks): on a tree that leaves a
+        # transaction open each of these replays sits out one real busy timeout (5 s)
         todo = list(enumerate(gens))
-        # the boot3 family in small chunks of its own: on a tree that leaves a transaction open each of these replays
-        # sits out one real busy timeout (5 s)
-        replays = pmap(replay_chunk, todo[:n_regular], nproc=8) + pmap(replay_chunk, todo[n_regular:], nproc=8, chunk=2)
+        reg, b3 = todo[:n_regular], todo[n_regular:]
+        if b3:
+            every = max(1, len(reg) // len(b3))
+            todo = []
+            for i, it in enumerate(reg):
+                todo.append(it)
+                if (i + 1) % every == 0 and b3:
+                    todo.append(b3.pop(0))
+            todo += b3
+        replays = pmap(replay_chunk, todo, nproc=8)
         phase("schedule replays")
         # stress: 2..16 free-running workers
         nstress = 200 if thorough else 10
@@ -1678,6 +1711,9 @@ def _run(o, thorough, rng, gens, side, provcfg, jobs):
     if stress:
         st = stress[-1]
         o.sample({"stress_workers": st["n"], "scn": st["scn"], "real": st["real"], "store_ok": st["store_ok"]})
+    if tier == "thorough":  # inductive invariants of the design (Apalache; harness/apalache.py)
+        import apalache
+        common.with_engine(o, "inductive", lambda: apalache.extend(o, tier, PID))
     return o.finish()
 
 
